@@ -19,11 +19,11 @@ PROP = dict(
           "compared with the reference interpreter when they stay inside the documented syntax), and a coverage-guided libFuzzer campaign on arbitrary "
           "text with the same oracle; non-trivial = the text contains at least one non-hex construct. (c) dumps: every 1-4-way partition of buffers "
           "of 0..12/20 bytes, every third/every combination of column, float-endianness, offset-width, colour, collapse and separator flags on 5 data "
-          "shapes x 4 start addresses x with/without previous buffer, every size 0..48 at every alignment, plus rapidcheck dumps of 0..600 bytes with "
-          "planted zero runs and float specials at start addresses 0, aligned, unaligned, around 2^8/2^16/2^32 and up to 2^64-16; non-trivial = "
+          "shapes x 4 start addresses x with/without previous buffer, every size 0..48 at every alignment at 7 base addresses (incl. 2^64-80, 2^64-48, 2^64-16), plus rapidcheck dumps of 0..600 bytes with "
+          "planted zero runs and float specials at start addresses 0, aligned, unaligned, around 2^8/2^16/2^32 and near the top of the address space (dumps ending up to and including 2^64); non-trivial = "
           "unaligned start, more than one iovec, or a collapsible zero run. Distinct = distinct case encodings / fuzz inputs (hash)."),
     assumptions=["hex-dump callers pass a previous buffer of exactly the data size (the print_data contract)",
-                 "dumps end at or below 2^64-16; a dump whose last line reaches 2^64 is the recorded known finding",
+                 "start + size <= 2^64 (a dump cannot extend beyond the 64-bit address space)",
                  "at most one of the OFFSET_* flags and at most one float-endianness flag per dump",
                  "little-endian host (float columns without an endianness flag are decoded as little-endian)",
                  "parse_data_string is called without ALLOW_FILES; texts outside the documented syntax (dangling escapes, empty or out-of-range "
@@ -31,6 +31,8 @@ PROP = dict(
                  "without crash and with mask.size() == data.size()",
                  "NaN fields of the float columns are compared ignoring the sign"],
     min_evaluations_quick=100000,
+    min_per_check_quick=dict(roundtrip=200000, grammar=60000, parse_any=36000, dump=40000, c09_fuzz=20000),
+    min_per_check_thorough=dict(roundtrip=2800000, grammar=700000, parse_any=1300000, dump=600000, c09_fuzz=500000),
     technique=("property-based testing + coverage-guided fuzzing: round-trip oracle for format_data_string/parse_data_string; an independently written "
                "reference interpreter of the documented data-string syntax plus by-construction expectations for grammar-generated text; an "
                "independent column decoder of the hex-dump layout (address/hex/ASCII/float/double columns, terminal attributes) whose reconstruction "
